@@ -14,6 +14,7 @@ import ast
 
 from sa import mutate as M
 from sa.consts import UNKNOWN
+from sa import pattern as PT
 from sa.ctx import Ctx
 from sa.effects import Raises
 from sa.loader import AnalysisError, call_name, norm, own_nodes, parent
@@ -52,7 +53,7 @@ def rule_block_gate(ctx: Ctx, rep: Report) -> None:
     rep.ob(rule, "witness:without_commitment", any(c.subject == "commitment" and c.op == "is" for c in cw), wc.where(), "witness data without a commitment refused")
     rep.ob(rule, "witness:mismatch", any(c.op == "!=" and {c.subject, c.value_text} == {"witness_commitment_", "commitment"} for c in cw), wc.where(), "commitment mismatch refused")
     rep.ob(rule, "witness:nonce_shape", any("len(witness_stack)" in c.subject and c.op == "!=" and c.value == 1 for c in cw) and any("len(witness_stack[0])" in c.subject and c.value == 32 for c in cw), wc.where(), "exactly one 32-byte witness nonce")
-    txt = norm(wc.node)
+    txt = PT.text(wc)
     rep.ob(rule, "witness:coinbase_zero_hash", "[b'\\x00' * 32] + [_HF(tx.serialize(include_witness=True, check_validity=False)) for tx in self.transactions[1:]]" in txt, wc.where(), "the coinbase's wtxid is 32 zero bytes")
     rep.ob(rule, "witness:commitment_hash", "_HF(witness_root + witness_stack[0])" in txt, wc.where(), "commitment = hash(witness root || nonce)")
     rep.ob(rule, "commitment_prefix", ctx.const(BL, "_COMMITMENT_PREFIX") == bytes.fromhex("6a24aa21a9ed"), "btclib/block/block.py:1", "OP_RETURN 0x24 0xaa21a9ed")
@@ -139,7 +140,7 @@ def rule_pow(ctx: Ctx, rep: Report) -> None:
     rep.ob(rule, "timespan", ctx.const(PW, "POW_TARGET_TIMESPAN") == 1209600 and ctx.const(PW, "POW_TARGET_SPACING") == 600 and ctx.const(PW, "DIFFICULTY_ADJUSTMENT_INTERVAL") == 2016, "btclib/block/proof_of_work.py:1", "two weeks / ten minutes / 2016")
     rep.ob(rule, "limits", ctx.const(PW, "MAINNET_POW_LIMIT_BITS") == bytes.fromhex("1d00ffff") and ctx.const(PW, "REGTEST_POW_LIMIT_BITS") == bytes.fromhex("207fffff"), "btclib/block/proof_of_work.py:1", "0x1d00ffff / 0x207fffff")
     vb = ctx.func(f"{PW}._value_from_bits")
-    txt = norm(vb.node)
+    txt = PT.text(vb)
     rep.ob(rule, "decode:pivot", ("if exponent < 3: return significand >> 8 * (3 - exponent)" in txt or "if exponent <= 3: return significand >> 8 * (3 - exponent)" in txt) and "return significand << 8 * (exponent - 3)" in txt, vb.where(), "shift right below 3, left above (equal at 3)")
     rep.ob(rule, "decode:mask", "& _SIGNIFICAND_MASK" in txt and "exponent = bits[0]" in txt, vb.where(), "the sign bit is masked off the mantissa")
     tb = ctx.func(f"{PW}.target_from_bits")
@@ -147,13 +148,13 @@ def rule_pow(ctx: Ctx, rep: Report) -> None:
     ct = refusal_constraints(ctx, tb)
     rep.ob(rule, "decode:overflow", ts == 32 and any(c.subject == "value" and c.op == ">=" and (c.value == 256**32) for c in ct), tb.where(), "value >= 2^256 refused")
     bt = ctx.func(f"{PW}.bits_from_target")
-    txt = norm(bt.node)
+    txt = PT.text(bt)
     rep.ob(rule, "encode:exponent", "exponent = (value.bit_length() + 7) // 8" in txt, bt.where(), "exponent = byte length of the value")
     rep.ob(rule, "encode:pivot", ("if exponent <= 3: significand = value << 8 * (3 - exponent)" in txt or "if exponent < 3: significand = value << 8 * (3 - exponent)" in txt) and "significand = value >> 8 * (exponent - 3)" in txt, bt.where(), "shift left at or below 3, right above")
     rep.ob(rule, "encode:sign_bit", "if significand & _SIGNIFICAND_SIGN_BIT: significand >>= 8 exponent += 1" in txt, bt.where(), "a mantissa with the sign bit set is shifted and the exponent incremented")
     rep.ob(rule, "encode:length", has_bound(refusal_constraints(ctx, bt), ">", 32, subject="len(target)") is not None or any(c.subject == "len(target)" and c.op == ">" for c in refusal_constraints(ctx, bt)), bt.where(), "targets longer than 32 bytes refused")
     nb = ctx.func(f"{PW}.next_bits")
-    txt = norm(nb.node)
+    txt = PT.text(nb)
     rep.ob(rule, "retarget:clamp", "actual_timespan = max(actual_timespan, POW_TARGET_TIMESPAN // 4)" in txt and "actual_timespan = min(actual_timespan, POW_TARGET_TIMESPAN * 4)" in txt, nb.where(), "timespan clamped to [T/4, 4T]")
     rep.ob(rule, "retarget:arithmetic", "target = target * actual_timespan % 2 ** 256" in txt and "target //= POW_TARGET_TIMESPAN" in txt and "target = min(target, pow_limit)" in txt, nb.where(), "multiply (mod 2^256), divide, cap at the limit")
     rh = ctx.func(f"{PW}.retarget_first_height")
@@ -175,21 +176,21 @@ def rule_filter_cmpct(ctx: Ctx, rep: Report) -> None:
     rep.ob(rule, "bip158:P_M", ctx.const(BF, "BASIC_FILTER_P") == 19 and ctx.const(BF, "BASIC_FILTER_M") == 784931, "btclib/block/block_filter.py:1", "P = 19, M = 784931")
     rep.ob(rule, "bip158:op_return", ctx.const(BF, "_OP_RETURN") == 0x6A, "btclib/block/block_filter.py:1", "OP_RETURN = 0x6a")
     fb = ctx.func(f"{BF}.BasicBlockFilter.from_block")
-    txt = norm(fb.node)
+    txt = PT.text(fb)
     rep.ob(rule, "bip158:exclusions", "_OP_RETURN" in txt and ("if script" in txt or "and script" in txt or "if s" in txt), fb.where(), "OP_RETURN outputs and empty scripts are excluded")
     rep.ob(rule, "bip158:coinbase_prevouts_excluded", "for tx in block.transactions if not tx.is_coinbase" in txt, fb.where(), "the coinbase's inputs spend nothing and are not counted")
     rep.ob(rule, "bip158:prevout_count", any(c.subject == "len(prevout_scripts)" and c.op == "!=" and c.value_text == "spent" for c in refusal_constraints(ctx, fb)), fb.where(), "one previous output script per spent input")
     CB = "btclib.p2p.compact_blocks"
     rep.ob(rule, "bip152:sizes", ctx.const(CB, "_SHORT_ID_SIZE") == 6 and ctx.const(CB, "_NONCE_SIZE") == 8, "btclib/p2p/compact_blocks.py:1", "6-byte short ids, 8-byte nonce")
     sk = ctx.func(f"{CB}.CmpctBlock.short_id_key")
-    txt = norm(sk.node)
+    txt = PT.text(sk)
     rep.ob(rule, "bip152:key", "sha256(" in txt and "digest[:8]" in txt and "digest[8:16]" in txt and "'little'" in txt, sk.where(), "SipHash key = first two little-endian u64 of sha256(header || nonce)")
     si = ctx.func(f"{CB}._short_id")
     rep.ob(rule, "bip152:short_id_mask", "_MAX_SHORT_ID" in norm(si.node) or "& 281474976710655" in norm(si.node), si.where(), "short id = low 6 bytes of the SipHash")
     rc = ctx.func(f"{CB}.reconstruct")
     cr = refusal_constraints(ctx, rc)
     rep.ob(rule, "bip152:collision_refused", any(c.subject == "len(set(short_ids))" and c.op == "!=" and c.value_text == "len(short_ids)" for c in cr), rc.where(), "duplicate short ids within the block are refused")
-    txt = norm(rc.node)
+    txt = PT.text(rc)
     rep.ob(rule, "bip152:pool_collision_unfilled", "collided.add(short_id)" in txt and "available[position_of[short_id]] = None" in txt, rc.where(), "two pool transactions under one short id leave the slot unfilled")
     rep.ob(rule, "bip152:empty_refused", any(c.subject == "count" and c.op == "falsy" for c in cr), rc.where(), "a compact block of no transactions is refused")
 
